@@ -32,7 +32,11 @@ type verifCipher struct {
 }
 
 func (c verifCipher) DecryptFromBuffer(k crypto.AuthKey, buf *bin.Buffer) (*crypto.EncryptedMessageData, error) {
-	panic("verif: DecryptFromBuffer not used")
+	if c.h.decrypted == nil {
+		panic("verif: DecryptFromBuffer not used")
+	}
+	d := *c.h.decrypted
+	return &d, nil
 }
 
 func (c verifCipher) Encrypt(key crypto.AuthKey, data crypto.EncryptedMessageData, b *bin.Buffer) error {
@@ -73,6 +77,7 @@ func (r verifRand) Read(p []byte) (int, error) {
 }
 
 type verifMT struct {
+	decrypted *crypto.EncryptedMessageData // what the cipher fake "decrypts"
 	c       *Conn
 	start   time.Time
 	last    verifSent
